@@ -18,7 +18,14 @@ def run_one(m, keep=False):
         for e in edits:
             if s.count(e['old']) < 1:
                 return m, None, 'pattern not found: %r' % e['old'][:60], 0
-            i = s.rfind(e['old']) if e.get('last', True) else s.find(e['old'])
+            if 'nth' in e:
+                i = -1
+                for _ in range(e['nth'] + 1):
+                    i = s.find(e['old'], i + 1)
+                if i < 0:
+                    return m, None, 'occurrence %d not found: %r' % (e['nth'], e['old'][:60]), 0
+            else:
+                i = s.rfind(e['old']) if e.get('last', True) else s.find(e['old'])
             s = s[:i] + e['new'] + s[i + len(e['old']):]
         open(p, 'w').write(s)
         env = dict(os.environ, VERIF_REPO=tmp, VERIF_NPROC=os.environ.get('VERIF_NPROC', '6'))
